@@ -4,6 +4,8 @@ id=$1; caught=$2; src=/tmp/seed/$id; dst=/verif/seeded/${3:-$id}
 mkdir -p $dst
 cp $src/seed_out/patch.diff $dst/patch.diff
 for f in $(git -C $src status --short | grep '^??' | awk '{print $2}' | grep -v '^seed_out' | grep -E '_test\.(go|py)$|demo'); do cp $src/$f $dst/$(basename $f); echo "$f" >> $dst/.demo_locations; done
+# python demonstrations live in seed_out itself
+for f in $src/seed_out/*.py; do [ -f "$f" ] && { cp $f $dst/$(basename $f); echo "seed_out/$(basename $f)" >> $dst/.demo_locations; }; done
 python3 - "$id" "$caught" "$dst" <<'PY'
 import json,sys,os,subprocess
 id,caught=sys.argv[1],sys.argv[2]
